@@ -1058,3 +1058,14 @@ Proof.
     eapply (no_mkdirall_quiet ch fault _ (no_mkdirall_prelude target scope newdir) _ _ _
               (fun e (Hin : In e (w_trace (world0 s))) => match Hin with end) E); eauto.
 Qed.
+
+Corollary writes_confined_in orc ch fuel target scope newdir fault s w out :
+  fs_wf s ->
+  run_localize orc ch fuel target scope newdir fault s = (w, out) ->
+  forall e, In e (w_trace w) ->
+    (mutating (ev_op e) = true -> is_prefix (newdir_path target newdir) (ev_target e) = true) /\
+    (ev_op e = ORemoveAll -> ev_path e = "" \/ ev_target e = newdir_path target newdir).
+Proof.
+  intros W H e Hin. pose proof (writes_confined _ _ _ _ _ _ _ _ _ _ W H) as F.
+  rewrite Forall_forall in F. exact (F e Hin).
+Qed.
